@@ -55,24 +55,36 @@ SameR(er, mr) ==
 SameP(ep, mp) == /\ ep.fail = "" /\ ep.size = mp.size /\ ep.cur = mp.cur /\ ep.view = mp.view
                  /\ ep.wpos = mp.wpos /\ ep.wok
 
+\* does candidate outcome c explain the logged event?  (an unmodelled observation is not compared)
+Explains(c) == IF ~SameR(Ev.r, c.r) THEN FALSE
+               ELSE IF c.wild THEN TRUE ELSE IF c.p.wild THEN TRUE ELSE SameP(Ev.p, c.p)
+
 TOp == /\ l <= Len(Trace) /\ Ev.ev \in Ops /\ ~wild /\ l' = l + 1
        /\ UNCHANGED ident
        /\ LET t     == Track(Devs \cap Rel(Ev.ev, d), {}, d, X)
-              cands == {[devs |-> {}, r |-> t.prim.r, wild |-> t.prim.wild, p |-> t.prim.p, st |-> t.prim.st, xp |-> XP(t.prim)]} \cup t.alts
-          IN \/ \E c \in cands :
-                  /\ SameR(Ev.r, c.r)
-                  /\ IF c.wild THEN wild' = TRUE /\ d' = d
-                     ELSE /\ wild' = FALSE /\ d' = c.st
-                          /\ (IF c.p.wild THEN TRUE ELSE SameP(Ev.p, c.p))     \* an unmodelled observation is not compared
-                  /\ dev' = dev \cup c.devs
-             \/ \* identity-hash prefix: re-rooting outside Sync adds an oversized identity block; the call
-                \* fails with that error, or succeeds and one of the observations fails with it
-                /\ "Dev_C10_IdentityOverflow" \in Devs /\ ident
-                /\ \E c \in cands :
-                      /\ c.xp
-                      /\ IF Ev.r.identerr THEN TRUE ELSE (SameR(Ev.r, c.r) /\ Ev.p.identfail)
-                      /\ dev' = dev \cup c.devs \cup {"Dev_C10_IdentityOverflow"}
-                /\ wild' = TRUE /\ d' = d
+              prim  == [devs |-> {}, r |-> t.prim.r, wild |-> t.prim.wild, p |-> t.prim.p, st |-> t.prim.st, xp |-> XP(t.prim)]
+              okAlt == {c \in t.alts : Explains(c)}
+              \* a deviation is used only where the primary outcome does not explain the event, and then
+              \* only a minimal set of deviations
+              \* only a minimal set of deviations, fully modelled explanations before unmodelled ones
+              Exact(c) == IF c.wild THEN FALSE ELSE ~c.p.wild
+              tier  == IF \E c \in okAlt : Exact(c) THEN {c \in okAlt : Exact(c)} ELSE okAlt
+              pick  == IF Explains(prim) THEN {prim}
+                       ELSE {c \in tier : ~\E c2 \in tier : c2.devs # c.devs /\ c2.devs \subseteq c.devs}
+              \* identity-hash prefix: (a) re-rooting outside Sync adds an oversized identity block: the call
+              \* fails with that error, or succeeds and an observation fails with it; (b) a branch node was
+              \* linked by its oversized identity CID: reading the file fails to fetch it
+              identA == \E c \in {prim} \cup t.alts :
+                           c.xp /\ (IF Ev.r.identerr THEN TRUE ELSE (SameR(Ev.r, c.r) /\ Ev.p.identfail))
+              identB == IF Ev.r.fetcherr THEN TRUE ELSE Ev.p.fetchfail
+          IN IF pick # {}
+               THEN \E c \in pick :
+                      /\ wild' = c.wild
+                      /\ d' = IF c.wild THEN d ELSE c.st
+                      /\ dev' = dev \cup c.devs
+               ELSE /\ "Dev_C10_IdentityOverflow" \in Devs /\ ident
+                    /\ (IF identA THEN TRUE ELSE identB)
+                    /\ wild' = TRUE /\ d' = d /\ dev' = dev \cup {"Dev_C10_IdentityOverflow"}
 
 TWild == /\ l <= Len(Trace) /\ Ev.ev \in Ops /\ wild /\ l' = l + 1
          /\ UNCHANGED <<d, wild, dev, ident>>
